@@ -105,6 +105,13 @@ _ROLE_BY_TARGET = {
 }
 
 
+_ROLE_BY_MODULE = {
+    'bardolph.lib.job_control': 'job',
+    'bardolph.lib.clock': 'clock',
+    'bardolph.controller.light_set': 'discovery',
+}
+
+
 class Sim:
     def __init__(self, chooser, gran='line', step_cap=400000,
                  epoch=1_700_000_000.0, start_dt=None, max_stall=2.0,
@@ -189,6 +196,12 @@ class Sim:
         if role is None:
             qn = getattr(target, '__qualname__', None) or ''
             role = _ROLE_BY_TARGET.get(qn)
+            if role is None:
+                # fall back on the module that defines the thread body, so
+                # that renaming a method does not change a thread's role
+                mod = getattr(target, '__module__', None) or getattr(
+                    getattr(target, '__func__', None), '__module__', '') or ''
+                role = _ROLE_BY_MODULE.get(mod)
             if role is None:
                 role = name or 'thread'
         k = self._role_counts.get(role, 0)
